@@ -88,6 +88,25 @@ impl Bitstr {
 //@use bitstr.fns "impl<'a> From<&'static [u8]> for Bitstr"::from
 }
 
+// C07 (bit-string layer): construction is the inverse of parsing.  Lemma over the contracts of
+// append and read: reading |a| bits from a ++ b returns a and leaves b; lengths add up.
+fn lemma_append_then_read(a: Bitstr, b: &Bitstr)
+    requires a.e() + b.view().len() <= usize::MAX
+    ensures true
+{
+    let ghost av = a.view();
+    let n = a.len();
+    let mut c = a.append(b);
+    assert(c.view().len() == av.len() + b.view().len());
+    let r = c.read(n);
+    assert(r is Some);
+    assert(r->0.view() =~= av);
+    assert(c.view() =~= b.view());
+    let r2 = c.read(b.len());
+    assert(r2 is Some && r2->0.view() =~= b.view());
+    assert(c.view().len() == 0);
+}
+
 //@type src/bitstr.rs struct BitvecBuilder
 
 impl BitvecBuilder {
